@@ -27,8 +27,13 @@ def __getattr__(name):
 
     digest.__name__ = name
     if not spec.get("plain"):
+        # constraints are declared as Iterable[str]: lists, tuples, sets and one-shot iterables alike
+        shape = {
+            "list": list, "tuple": tuple, "set": set, "iter": iter, "generator": lambda names: (n for n in names),
+            "map": lambda names: map(str, names), "dictkeys": lambda names: dict.fromkeys(names).keys(),
+        }[spec.get("iterable", "list")]
         digest = constraints(
-            before=spec["before"], after=spec["after"], required=spec["required"]
+            before=shape(spec["before"]), after=shape(spec["after"]), required=spec["required"]
         )(digest)
     CURRENT["made"][name] = digest
     return digest
